@@ -50,6 +50,8 @@ class Opts:
         self.steps_out_of_file_order = False  # ProfilerStep annotations are written after the operators, latest first
         self.n_extra_ops = None  # number of run-specific operator names (None: 0-3); large values give a wide vocabulary
         self.p_dual_cat = 0.0  # an operator name also occurs as a user_annotation (same name, two categories)
+        self.main_tid = 1  # thread id of the thread holding the profiler steps
+        self.other_tids_below = False  # the other host threads get SMALLER ids than the main thread (their call stacks are then built first)
         self.step_base = 10  # number of the first ProfilerStep annotation (9 makes the numbers cross a digit boundary: 9, 10, 11)
         self.p_orphan_no_corr = 0.0  # an orphan device activity carries no correlation id at all (the loader stores -1)
         self.first_op_in_step = False  # the first event of the file (a host operator) lies inside the first profiler step, so event id 0 carries an iteration number
@@ -151,7 +153,7 @@ def gen_rank(rng: random.Random, o: Opts, rank: int = 0) -> List[Dict[str, Any]]
 
     t = o.base
     step_len = q * 12 * max(1, o.n_top)
-    main_tid = 1
+    main_tid = o.main_tid
     # first event of the file must be a host operator (WF4)
     evs.append(synth.host_op("aten::first_op", t, q, tid=main_tid))
     t += q
@@ -166,7 +168,7 @@ def gen_rank(rng: random.Random, o: Opts, rank: int = 0) -> List[Dict[str, Any]]
             evs.append(synth.profiler_step(o.step_base + s, start, end - start, tid=main_tid))
         fill(start, end, 1, main_tid, evs)
         for th in range(1, o.n_threads):
-            fill(start + q, end - q, 1, main_tid + th, evs)
+            fill(start + q, end - q, 1, (main_tid - th) if o.other_tids_below else (main_tid + th), evs)
         t = end + (0 if rng.random() < 0.5 else q * rng.randint(0, 2))
     if o.after_last and o.steps > 0:
         fill(t, t + step_len // 2, 1, main_tid, evs)
